@@ -242,9 +242,24 @@ func init() {
 			}
 			c.check(call != nil, "NewFS: loads config", p.pos(nf.Pos()), "loadConfig is called", "the constructor no longer loads theme.yml / data/*.yml")
 			if call != nil {
+				// the only thing that may decide whether loadConfig runs is the engine's own filesystem field being set
+				// (the test loadConfig makes itself may have been moved to the caller)
 				uncond := true
-				for _, r := range returnsOf(nf) {
-					if !dominates(call, r) {
+				fieldTestInCaller := false
+				_ = fieldTestInCaller
+				for _, g := range controllingIfs(call) {
+					okCond := false
+					if b, ok := g.If.Cond.(*ssa.BinOp); ok && (isNilConst(b.X) || isNilConst(b.Y)) {
+						other := b.X
+						if isNilConst(b.X) {
+							other = b.Y
+						}
+						if f := loadedField(other); f != nil && fieldIs(f, "templateFS") {
+							okCond = true
+							fieldTestInCaller = true
+						}
+					}
+					if !okCond {
 						uncond = false
 					}
 				}
@@ -273,6 +288,19 @@ func init() {
 					}
 				}
 			})
+			if !okField && call != nil {
+				for _, g := range controllingIfs(call) {
+					if b, ok := g.If.Cond.(*ssa.BinOp); ok && (isNilConst(b.X) || isNilConst(b.Y)) {
+						other := b.X
+						if isNilConst(b.X) {
+							other = b.Y
+						}
+						if f := loadedField(other); f != nil && fieldIs(f, "templateFS") {
+							okField = true // the test was moved to the only caller
+						}
+					}
+				}
+			}
 			c.check(okField, "loadConfig: tests the engine's filesystem", p.pos(lc.Pos()), "vue.templateFS == nil → return", "loadConfig does not test the engine's own filesystem field before reading")
 		},
 	})
@@ -290,10 +318,20 @@ func init() {
 			}
 			renderCone := p.Cone(p.renderEntries()...)
 			c.check(!renderCone[fa], "FormatAttr not reachable from rendering", p.pos(fa.Pos()), "outside the render cone", "helpers.FormatAttr is reachable from a render entry point")
-			filter := p.MustFn("(*formatter.Formatter).isIgnorableWhitespace")
+			// (when the small predicate was inlined and deleted, the functions it was inlined into stand for it)
+			filters, _ := p.hostsOf("(*formatter.Formatter).isIgnorableWhitespace")
+			if len(filters) == 0 {
+				undecided("anchor function (*formatter.Formatter).isIgnorableWhitespace not found, nor its former callers")
+			}
 			for _, name := range []string{"(*formatter.Formatter).renderPreContent", "(*formatter.Formatter).formatRawTextElement"} {
 				fn := p.MustFn(name)
-				c.check(!p.Cone(fn)[filter], name+": keeps whitespace text nodes", p.pos(fn.Pos()), "whitespace filter not reachable", "the whitespace-dropping child filter is reachable from "+name+": whitespace-only text nodes inside <pre> / raw text (the separators a syntax highlighter emits) are dropped, altering the content")
+				reach := false
+				for _, filter := range filters {
+					if p.Cone(fn)[filter] {
+						reach = true
+					}
+				}
+				c.check(!reach, name+": keeps whitespace text nodes", p.pos(fn.Pos()), "whitespace filter not reachable", "the whitespace-dropping child filter is reachable from "+name+": whitespace-only text nodes inside <pre> / raw text (the separators a syntax highlighter emits) are dropped, altering the content")
 			}
 		},
 	})
@@ -718,7 +756,12 @@ func valueSources(p *Prog, v ssa.Value) []string {
 				set["const"] = true
 			case *ssa.Call:
 				n := calleeName(&x.Call)
-				if strings.Contains(n, "goldmark") {
+				if strings.Contains(n, "goldmark/util.") {
+					// text utilities (URLEscape, UnescapePunctuations, Resolve…) transform their argument: the source is what they are given
+					for _, a := range callArgs(&x.Call) {
+						walk(a, d+1)
+					}
+				} else if strings.Contains(n, "goldmark") {
 					set[n] = true
 				} else {
 					for _, a := range callArgs(&x.Call) {
